@@ -714,7 +714,8 @@ func TestVerif_C25(t *testing.T) {
 		add(v.name+"/cleanstop-anytime/full", b, mk([]c25req{{file: "s.txt"}}, c25StopCleanStop, 0, false))
 		add(v.name+"/cleanstop-anytime/full+drop", b-1, mk([]c25req{{file: "s.txt"}, {file: "s.txt", kind: c25Drop}}, c25StopCleanStop, 0, false))
 		add(v.name+"/cleanstop-after-handlers/slow-full+early", b, mk([]c25req{{file: "s.txt", delay: slow}, {file: "s.txt", kind: c25Early, failAfter: half}}, c25StopCleanStop, 0, true))
-		add(v.name+"/finalise/full+full", b, mk([]c25req{{file: "s.txt"}, {file: "s.txt"}}, c25StopFinalise, 0, true))
+		// the largest space of the list (5 threads): kept at bound 2 in both tiers, ~3*10^6 executions at bound 3
+		add(v.name+"/finalise/full+full", 2, mk([]c25req{{file: "s.txt"}, {file: "s.txt"}}, c25StopFinalise, 0, true))
 		add(v.name+"/finalise/expired-slow-full+drop", b, mk([]c25req{{file: "s.txt", delay: slow}, {file: "s.txt", kind: c25Drop, start: 1200 * time.Millisecond}}, c25StopFinalise, 700*time.Millisecond, true))
 		add(v.name+"/cleanstop+finalise/slow-full", b, mk([]c25req{{file: "s.txt", delay: slow}}, c25StopCleanStop|c25StopFinalise, 0, true))
 		if v.name != "osfs-big" {
@@ -726,8 +727,9 @@ func TestVerif_C25(t *testing.T) {
 	// transparent compression over an fs.FS: a compressible file is read, compressed into memory and its handle closed
 	// inside the handler call; an incompressible one is served (and cached under the gzip kind) like a plain file.
 	cz := map[string]int{"s.txt": 300, "r.txt": 300}
-	add("iofs-compress/compressible/full+full", b-1, c25scn{fsKind: c25FSio, sizes: cz, compress: true, reqs: []c25req{{file: "s.txt"}, {file: "s.txt"}}})
-	add("iofs-compress/incompressible/full+early", b-1, c25scn{fsKind: c25FSio, sizes: cz, compress: true, reqs: []c25req{{file: "r.txt"}, {file: "r.txt", kind: c25Early, failAfter: 150}}})
+	// (the stackless compressor adds a worker thread and many blocking hand-offs: the second request comes 700ms later)
+	add("iofs-compress/compressible/full+later-full", b-1, c25scn{fsKind: c25FSio, sizes: cz, compress: true, reqs: []c25req{{file: "s.txt"}, {file: "s.txt", start: 700 * time.Millisecond}}})
+	add("iofs-compress/incompressible/full+later-early", b-1, c25scn{fsKind: c25FSio, sizes: cz, compress: true, reqs: []c25req{{file: "r.txt"}, {file: "r.txt", kind: c25Early, failAfter: 150, start: 700 * time.Millisecond}}})
 	r.Set("preemption_bound", fmt.Sprint(b))
 	mcx.Run(r, scs)
 }
